@@ -291,7 +291,9 @@ SLOT_OF = {"access_token": ["userinfo", "introspection"], "refresh_token": ["ref
 
 
 def endpoint_oracle(ctx, rng, variant, n_flows, n_mut):
-    shared, jwt, idt_alg = variant
+    shared, jwt, idt_alg = variant[:3]
+    alias = len(variant) > 3 and variant[3] == "alias"
+    jwt_refresh = len(variant) > 4 and variant[4]
     old = srv.make_server
 
     def mk(*a, **k):
@@ -300,8 +302,8 @@ def endpoint_oracle(ctx, rng, variant, n_flows, n_mut):
     srv.make_server = mk
     try:
         over = {c: {"id_token_signed_response_alg": idt_alg} for c in sess.CLIENTS} if idt_alg else None
-        rs = sess.RealSession(oidc=True, jwt_access=jwt, client_over=over)
-        rs2 = sess.RealSession(oidc=True, jwt_access=jwt, client_over=over)      # a second instance; with pinned keys it shares them
+        rs = sess.RealSession(oidc=True, jwt_access=jwt, client_over=over, alias_kwargs=alias, jwt_refresh=jwt_refresh)
+        rs2 = sess.RealSession(oidc=True, jwt_access=jwt, client_over=over, alias_kwargs=alias, jwt_refresh=jwt_refresh)      # a second instance; with pinned keys it shares them
     finally:
         srv.make_server = old
     try:
@@ -483,7 +485,9 @@ def run(ctx):
     plain_cases(ctx, rng, server, 200 if ctx.quick else 5000)
     info_matrix(ctx, True)
     info_matrix(ctx, False)
-    for variant in [(True, False, None), (False, False, None), (True, True, None), (True, True, "ES256")]:
+    # the last two: the handler slots of one kind reference one kwargs dict (opaque x3; JWT access + JWT refresh)
+    for variant in [(True, False, None), (False, False, None), (True, True, None), (True, True, "ES256"),
+                    (True, False, None, "alias", False), (True, True, None, "alias", True)]:
         endpoint_oracle(ctx, rng, variant, 2 if ctx.quick else 12, 14 if ctx.quick else 80)
 
 
